@@ -155,6 +155,7 @@ func (p *prop) runModule(c core.Case, w *core.Worker, res *core.Result, r *rand.
 				"func HandleMutual(n int) error {\n\tif err := store.Mutual2(n); err != nil {\n\t\treturn err\n\t}\n\treturn store.Mutual1(n)\n}\n\n" +
 				"func HandleValue(n int) (any, error) {\n\tif n > 0 {\n\t\treturn store.Value(n)\n\t}\n\treturn nil, store.Check(n)\n}\n\n"
 		}
+		fsrc += "type Mixed struct{ n int }\n\nfunc (m Mixed) V1() int { return m.n }\n\nfunc (m *Mixed) P1() { m.n++ }\n\nfunc (m Mixed) V2() int { return m.n + 2 }\n\nfunc (m *Mixed) P2() { m.n += 2 }\n\nfunc (m Mixed) V3() int { return m.n + 3 }\n\n"
 		fsrc += "type NotFound struct{}\n\nfunc (*NotFound) Error() string { return \"not found\" }\n\ntype Invalid struct{}\n\nfunc (*Invalid) Error() string { return \"invalid\" }\n\n" +
 			"func Check(n int) error {\n\tif n < 0 {\n\t\treturn &Invalid{}\n\t}\n\treturn nil\n}\n\n" +
 			"func Load(n int) error {\n\tif err := Check(n); err != nil {\n\t\treturn err\n\t}\n\tif n == 0 {\n\t\treturn &NotFound{}\n\t}\n\treturn nil\n}\n\n" +
